@@ -20,6 +20,9 @@ def gen(rng, n):
             hs.append(["N %d" % size, "A " + late, "A 1 1 1", "E"])
         for bad in ("0 1 1", "1 0 1", "1 1 0", "1 1 2", "1 1 3"):
             hs.append(["N %d" % size, "A " + bad] + ["A 1 1 1"] * size + ["K r"] + ["A 1 1 1", "E"])
+        if size >= 2:
+            hs.append(["N %d" % size, "A 1 1 1", "A 1 1 3", "A 1 1 1", "E"])
+            hs.append(["N %d" % size, "A 1 1 3", "A 1 1 3", "A 1 1 1", "A 1 1 1", "E"])
         seq = ["A 1 1 1", "A 0 1 1", "A 1 1 1", "K l", "A 1 0 1", "A 1 1 1"]
         for pos in range(len(seq) + 1):
             hs.append(["N %d" % size] + seq[:pos] + ["X"] + seq[pos:] + ["E"])
@@ -32,10 +35,9 @@ def gen(rng, n):
                 if rng.chance(3, 5):
                     h.append("A 1 1 1")
                 else:
-                    if rng.chance(1, 4):
-                        h.append("A 1 1 3")
-                    else:
-                        h.append("A %d %d %d" % (rng.below(2), rng.below(2), rng.choice([0, 1, 2])))
+                    # ("A 1 1 3" - the peer dies right after registration - is only meaningful when the attempt is served at
+                    # once; it is exercised by the systematic scenarios below, where the pool is known to have a free slot)
+                    h.append("A %d %d %d" % (rng.below(2), rng.below(2), rng.choice([0, 1, 2])))
             elif r < 85:
                 h.append("K " + rng.choice(["r", "l"]))
             elif r < 89:
